@@ -19,10 +19,10 @@ Proof. constructor; cbn; auto. Qed.
 
 Lemma rstep_inv s e s' : RInv s -> rstep s e = Some s' -> RInv s'.
 Proof.
-  intros [C B K] H. destruct s as [ch cap cl res sent n]; cbn in *. subst cap.
-  destruct e as [v| |ok v]; cbn in H.
+  intros [C B K] H. destruct s as [ch cap cl res sent n sto]; cbn in *. subst cap.
+  destruct e as [v| |ok v| |]; cbn in H.
   - destruct sent; [discriminate|]. destruct B as [B1 B2]. subst ch res. cbn in H.
-    destruct cl; cbn in H; [discriminate|]. inversion H; subst; clear H.
+    destruct cl; cbn in H; [discriminate|]. destruct sto; cbn in H; [|discriminate]. inversion H; subst; clear H.
     constructor; cbn; auto.
   - destruct cl; [discriminate|]. inversion H; subst; clear H. constructor; cbn; auto.
   - destruct ok.
@@ -32,6 +32,8 @@ Proof.
       * destruct B as [B1 [B2|B2]]; [inversion B2; subst; auto | discriminate].
       * destruct B; discriminate.
     + destruct (cl && (length ch =? 0) && (v =? res)) eqn:E; [|discriminate]. inversion H; subst. constructor; auto.
+  - destruct sent; [discriminate|]. destruct sto; [discriminate|]. inversion H; subst; clear H. constructor; cbn; auto.
+  - destruct cl; [|discriminate]. inversion H; subst. constructor; auto.
 Qed.
 
 Lemma rrun_inv es : forall s s', RInv s -> rrun s es = Some s' -> RInv s'.
@@ -53,7 +55,7 @@ Theorem response_is_own_outcome s ok v s' :
   match rsent s with Some x => v = x | None => v = 0 end.
 Proof.
   intros R H. apply rreachable_inv in R. destruct R as [C B K].
-  destruct s as [ch cap cl res sent n]; cbn in *. destruct ok.
+  destruct s as [ch cap cl res sent n sto]; cbn in *. destruct ok.
   - destruct ch as [|x r]; [discriminate|]. destruct (Nat.eqb x v) eqn:E; [|discriminate].
     apply Nat.eqb_eq in E. subst. destruct sent.
     + destruct B as [_ [B|B]]; [inversion B; auto | discriminate].
@@ -68,10 +70,20 @@ Qed.
 Theorem response_waits s ok v s' :
   rstep s (RRecv ok v) = Some s' -> rch s <> [] \/ rclosed s = true.
 Proof.
-  intros H. destruct s as [ch cap cl res sent n]; cbn in *. destruct ok.
+  intros H. destruct s as [ch cap cl res sent n sto]; cbn in *. destruct ok.
   - destruct ch; [discriminate|]. left; discriminate.
   - destruct cl; cbn in H; [auto | discriminate].
 Qed.
+
+Theorem send_needs_store s v s' : rstep s (RSend v) = Some s' -> rstored s = true.
+Proof.
+  intros H. destruct s as [ch cap cl res sent n sto]; cbn in *.
+  destruct sent; [discriminate|]. destruct sto; [reflexivity|].
+  rewrite andb_false_r in H. discriminate.
+Qed.
+
+Theorem no_store_after_send s s' : RReachable s -> rsent s <> None -> rstep s RStore = Some s' -> False.
+Proof. intros _ N H. cbn in H. destruct (rsent s) eqn:E; [discriminate|]. now apply N. Qed.
 
 (* the response is closed at most once *)
 Theorem response_closed_once s : RReachable s -> rcloses s <= 1.
